@@ -223,9 +223,66 @@ def install_file_seams() -> None:
         point("file:unlink")
         return orig_unlink(self, *args, **kw)
 
+    orig_replace = pathlib.Path.replace
+
+    def replace(self, target):  # noqa: ANN001
+        point("file:replace")
+        return orig_replace(self, target)
+
     save._dsim_seam = True
     FileStorage.save = save
     pathlib.Path.unlink = unlink
+    pathlib.Path.replace = replace
 
 
 install_file_seams()
+
+
+# ------------------------------------------------------------------------------------------ lock seam
+class CoopLock:
+    """threading.Lock with a seam: waiting for it parks the thread as blocked (the scheduler picks who runs next and
+    retries the acquisition once somebody else has moved).  When every live thread is blocked the longest waiter
+    gives up with an error - what a lock timeout amounts to."""
+
+    def __init__(self) -> None:
+        self._lock = threading.Lock()
+
+    def acquire(self, blocking: bool = True, timeout: float = -1) -> bool:
+        point("lock:acquire")
+        while not self._lock.acquire(False):
+            if not blocking:
+                return False
+            if not point("applock-wait", blocked=True):
+                raise RuntimeError("deadlock: gave up waiting for a lock")
+        return True
+
+    def release(self) -> None:
+        self._lock.release()
+
+    def locked(self) -> bool:
+        return self._lock.locked()
+
+    def __enter__(self) -> bool:
+        return self.acquire()
+
+    def __exit__(self, *exc) -> None:  # noqa: ANN002
+        self.release()
+
+
+LOCK_SEAMS = [("dashlive.server.models.stream", "upload_lock")]
+
+
+def install_lock_seams() -> list[str]:
+    """Replace the module-level locks of the application (listed above; absent ones are skipped)."""
+    import importlib
+    done = []
+    for modname, attr in LOCK_SEAMS:
+        try:
+            mod = importlib.import_module(modname)
+        except Exception:  # noqa: BLE001
+            continue
+        cur = getattr(mod, attr, None)
+        if cur is not None and not isinstance(cur, CoopLock):
+            setattr(mod, attr, CoopLock())
+            done.append(f"{modname}.{attr}")
+    return done
